@@ -103,7 +103,11 @@ def gcd_many(*args):
 
 
 def lcm(q, r):
-    return abs(q*r)//gcd(q, r)
+    g = gcd(q, r)
+    if not g:
+        # q == r == 0: the only common multiple is 0
+        return abs(q*r)
+    return abs(q*r)//g
 
 # }}}
 
